@@ -159,6 +159,13 @@ def text_of(tree):
         out.append(chr(x[1]))
     return "".join(out)
 
+import re as _re
+_ADDR = _re.compile(r"C48 K C120((?: K C(?:4[89]|5[0-7]|9[7-9]|10[0-2]))+)")
+
+def canon_addr_tokens(d):
+    """addresses inside printed text (#<lambda-0x7f..>) -> 0x0, as the model prints them"""
+    return _ADDR.sub("C48 K C120 K C48", d)
+
 def split_run_answer(ans):
     """driver `run` answer -> dict(results=[(status, dumptext)], out=str, stats=dict, sent=str) or dict(special=...)"""
     if ans.startswith("panic") or ans.startswith("crash") or ans == "timeout" or ans.startswith("setup-failed") or ans.startswith("unknown"):
@@ -168,7 +175,7 @@ def split_run_answer(ans):
     if parts[0] != "none":
         for r in parts[0].split(" ; "):
             st, _, d = r.partition(" ")
-            results.append((st, d))
+            results.append((st, canon_addr_tokens(d)))
     out = dec(parts[1][4:]) if len(parts) > 1 else ""
     stats = {}
     if len(parts) > 2:
